@@ -550,3 +550,9 @@ V("C12.L.model.size_bound", "wiremodel", "lemma_model_size_bound", {"C12": "D"},
   note="for every value of a fixed-size shape nested to any depth: |enc(v)| <= max_size(shape) with max_size the MaxSize formulas (option +1, tuple/struct sum, enum discriminant + max), given the per-kind leaf bounds")
 ASSUMPTIONS["C01"] = [a for a in ASSUMPTIONS["C01"] if not a.startswith("nesting to arbitrary depth")] + [
     "nesting to arbitrary depth: spec-level lemma C01.L.model.roundtrip over an abstract wire model whose three hypotheses (hyp_leaf_roundtrip, hyp_len_roundtrip - external_body proof fns) are what the per-kind obligations discharge on the real code; that serde drives postcard's methods according to that model is A-serde"]
+
+for o in OBLIGATIONS:
+    for w in ["u16", "u32", "u64"]:
+        if o["id"] == "C17.V.dyn.varint.varint_" + w: o["witness"] = "C17.K.dyn.ser_leaf." + w
+    for sw in ["i16", "i32", "i64"]:
+        if o["id"] == "C17.V.dyn.zz.enc_" + sw: o["witness"] = "C17.K.dyn.ser_leaf." + sw
